@@ -437,12 +437,14 @@ theorem unmarshal_noPanic (S : Schema) (h : S.decodeSafe = true) (d tag : Nat) (
   by_cases hr : S.dyns.length ≤ d
   · rw [if_pos hr]; exact Res.noPanic_err _
   · rw [if_neg hr]
+    generalize decFuel bs.length = F
+    unfold unmarshalWith
     have hd : d < S.dyns.length := by omega
     have hS := (S.decodeSafe_iff).1 h
     have hk := hS.dyn hd
     have hptr : ∀ k', (S.dyn d).kind = .ptr k' → Kind.leafSafe k' = true :=
       fun k' h => Kind.leafSafe_ptr (h ▸ hk)
-    have ihK := (typedNoPanic S hS (decFuel bs.length)).decK
+    have ihK := (typedNoPanic S hS F).decK
     np_auto
 
 /-! ### C05: the encoder's field loop, the version cell -/
@@ -1406,7 +1408,9 @@ theorem unmarshal_opaque_enc (S : Schema) (d : Nat) (hd : S.isOpaquePayloadDyn d
         ∧ Item.sizeList its ≤ f :=
       ⟨(enc (Item.struct tag its)).length + 2999998, by unfold decFuel; omega, by omega⟩
     unfold unmarshal
-    rw [if_neg hdr, Cur.start_enc _ h, Res.ok_bind, hf]
+    rw [if_neg hdr, hf]
+    unfold unmarshalWith
+    rw [Cur.start_enc _ h, Res.ok_bind]
     -- NB: the fuel must be opaque here: `simp` unfolds fuel-recursive functions applied to `n + literal`
     generalize f = f0 at hsz' ⊢
     simp only [hk, if_neg htag]
